@@ -226,6 +226,32 @@ fn check_header(ctx: &mut Ctx, voice: &Voice, rv: &RefVoice, path: &Path) {
             if !bad.is_empty() {
                 ctx.violation("engine-default", J::obj().set("fields", J::from(bad)));
             }
+            // the defaults must also be the values synthesis really uses: the waveform of the fresh
+            // engine equals the hooked trajectories rendered with the *header's* settings
+            let label: jlabel::Label = "xx^xx-sil+b=o/A:xx+xx+xx/B:xx-xx_xx/C:xx_xx+xx/D:xx+xx_xx/E:xx_xx!xx_xx-xx/F:xx_xx#xx_xx@xx_xx|xx_xx/G:4_4%0_xx_xx/H:xx_xx/I:xx-xx@xx+xx&xx-xx|xx+xx/J:1_4/K:1+1-4".parse().unwrap();
+            let label2: jlabel::Label = "sil^b-o+N=s/A:-3+1+4/B:xx-xx_xx/C:02_xx+xx/D:xx+xx_xx/E:xx_xx!xx_xx-xx/F:4_4#0_xx@1_1|1_4/G:xx_xx%xx_xx_xx/H:xx_xx/I:1-4@1+1&1-1|1+4/J:xx_xx/K:1+1-4".parse().unwrap();
+            if let Ok(run) = crate::synth::run_with_hooks(&e, vec![label, label2]) {
+                let hp = crate::synth::VocoderParams {
+                    nmcp: rv.streams[0].vector_length,
+                    nlpf: if rv.streams.len() > 2 { rv.streams[2].vector_length } else { 0 },
+                    stage,
+                    log_gain: ln_gain,
+                    rate: rv.sampling_frequency,
+                    alpha,
+                    beta: 0.0,
+                    volume: 1.0,
+                    fperiod: rv.frame_period,
+                };
+                let again = crate::synth::rerender(&hp, &run);
+                ctx.count("effective_defaults_rendered", 1.0);
+                let finite = run.wave.iter().all(|x| x.is_finite());
+                if finite && !crate::synth::bits_equal(&again, &run.wave) {
+                    ctx.violation(
+                        "synthesis-does-not-use-the-header-defaults",
+                        J::obj().set("header_settings", format!("{:?}", hp)).set("len", run.wave.len()).set("len_rendered_with_header_settings", again.len()),
+                    );
+                }
+            }
         }
         Err(e) => ctx.violation("engine-load-err", J::from(format!("{}", e))),
     }
